@@ -119,8 +119,9 @@ func legalPanicPoints(d *Desc, steps []Step) []int {
 }
 
 func genC14(t *rapid.T) KeyCase {
-	d := genWorld(t, WorldOpts{Modes: allModes, MaxMappings: 2, Actions: allKeyActions, ActionProb: 50, ExitMax: 3, ExitOverlap: true, Subs: 1})
+	d := genWorld(t, WorldOpts{Modes: allModes, MaxMappings: 2, Actions: allKeyActions, ActionProb: 50, ExitMax: 3, ExitOverlap: true, Subs: 3})
 	h := newHistState(d)
+	h.scatter(t)
 	n := rapid.IntRange(1, 40).Draw(t, "histLen")
 	keys := append(append(append([]uint16{}, h.noteKeys...), h.actKeys...), h.spare...)
 	for i := 0; i < n; i++ {
